@@ -32,8 +32,20 @@ class PathDeps(Analysis):
     """State: frozenset of path records
     (conds, deps, pinned, signed, axis_incoming, infeasible_note)."""
 
-    def __init__(self, axis, angle, vec):
+    def __init__(self, axis, angle, vec, structures=None):
         self.axis, self.angle, self.vec = axis, angle, vec
+        # {constructor name: {row axis: (set of column axes with a non-zero entry,
+        #                                does a non-constant entry occur in the row)}}
+        self.structures = structures or {}
+
+    def _comp(self, deps, attr, sign):
+        """dependence of component ``attr`` of the re-aligned axis"""
+        key = ('~' if sign else '') + self.axis + '.' + attr
+        if key in deps:
+            return deps[key]
+        if sign and (self.axis + '.' + attr) in deps:
+            return deps[self.axis + '.' + attr]
+        return deps.get(('~' if sign else '') + self.axis, deps.get(self.axis, frozenset()))
 
     def initial(self):
         deps = {self.axis: frozenset(AXES), self.vec: frozenset(), self.angle: frozenset()}
@@ -46,9 +58,12 @@ class PathDeps(Analysis):
             if isinstance(node, ast.Attribute) and isinstance(node.value, ast.Name) \
                     and node.value.id == self.axis and node.attr in AXES and incoming:
                 res.add(node.attr)
+            elif isinstance(node, ast.Attribute) and isinstance(node.value, ast.Name) \
+                    and node.value.id == self.axis and node.attr in AXES:
+                res |= set(self._comp(deps, node.attr, False))
             elif isinstance(node, ast.Name) and isinstance(node.ctx, ast.Load):
                 par = getattr(node, '_parent', None)
-                if node.id == self.axis and incoming and isinstance(par, ast.Attribute) \
+                if node.id == self.axis and isinstance(par, ast.Attribute) \
                         and par.attr in AXES:
                     continue  # handled above, component-wise
                 res |= set(deps.get(node.id, frozenset()))
@@ -73,6 +88,9 @@ class PathDeps(Analysis):
             if isinstance(node, ast.Attribute) and isinstance(node.value, ast.Name) \
                     and node.value.id == self.axis and node.attr in AXES and incoming:
                 return frozenset([node.attr])
+            if isinstance(node, ast.Attribute) and isinstance(node.value, ast.Name) \
+                    and node.value.id == self.axis and node.attr in AXES:
+                return frozenset(self._comp(deps, node.attr, True))
             if isinstance(node, ast.Name) and isinstance(node.ctx, ast.Load):
                 return frozenset(deps.get('~' + node.id, deps.get(node.id, frozenset())))
             res = frozenset()
@@ -89,8 +107,42 @@ class PathDeps(Analysis):
                     and isinstance(stmt.targets[0], ast.Name):
                 name = stmt.targets[0].id
                 new_s = self._sdeps(stmt.value, deps, incoming)
-                deps[name] = self._deps(stmt.value, deps, incoming)
+                new_d = self._deps(stmt.value, deps, incoming)
+                comps = None
+                val = stmt.value
+                if name == self.axis and isinstance(val, ast.BinOp) and isinstance(val.op, ast.MatMult) \
+                        and isinstance(val.left, ast.Name) and isinstance(val.right, ast.Name) \
+                        and val.right.id == self.axis and ('@' + val.left.id) in deps:
+                    # M @ axis with M an elementary rotation: row i of the result reads
+                    # only the columns in which the matrix has a non-zero entry
+                    struct = self.structures.get(next(iter(deps['@' + val.left.id])))
+                    if struct:
+                        comps = {}
+                        for row in AXES:
+                            cols, uses_angle = struct[row]
+                            d, sd = set(), set()
+                            for col in cols:
+                                if incoming:
+                                    d.add(col)
+                                    sd.add(col)
+                                else:
+                                    d |= set(self._comp(deps, col, False))
+                                    sd |= set(self._comp(deps, col, True))
+                            if uses_angle:
+                                d |= set(deps.get(val.left.id, frozenset()))
+                                sd |= set(deps.get('~' + val.left.id, deps.get(val.left.id, frozenset())))
+                            comps[row] = (frozenset(d), frozenset(sd))
+                for k in [k for k in deps if k.lstrip('~').startswith(name + '.')]:
+                    del deps[k]
+                deps.pop('@' + name, None)
+                deps[name] = new_d
                 deps['~' + name] = new_s
+                if comps is not None:
+                    for row, (d, sd) in comps.items():
+                        deps['%s.%s' % (name, row)] = d
+                        deps['~%s.%s' % (name, row)] = sd
+                if isinstance(val, ast.Call) and call_name(val) in self.structures:
+                    deps['@' + name] = frozenset([call_name(val)])
                 if name == self.axis:
                     incoming = False
             elif isinstance(stmt, ast.AugAssign) and isinstance(stmt.target, ast.Name):
@@ -202,7 +254,27 @@ def run(ctx):
     # the rotated vector is the parameter the returned value is rebuilt from
     vec = others[-1]
     angle = others[0]
-    ana = PathDeps(axis, angle, vec)
+    structures = {}
+    for name in ('rotate_atoms_around_z_axis', 'rotate_atoms_around_y_axis'):
+        rf = mod.funcs.get(name)
+        entries = _matrix_entries(rf) if rf is not None else None
+        if entries is None:
+            continue
+        par = rf.args.args[0].arg
+        st = {}
+        for i, row in enumerate(AXES, 1):
+            cols, uses = set(), False
+            for j, col in enumerate(AXES, 1):
+                kind = _trig(entries['a%d%d' % (i, j)], par) if ('a%d%d' % (i, j)) in entries else ('const', 0)
+                if kind[0] == 'const' and kind[1] == 0:
+                    continue
+                cols.add(col)
+                uses = uses or kind[0] != 'const'
+            st[row] = (cols, uses)
+        structures[name] = st
+    ctx.note('elementary_rotation_structure', {k: {r: [sorted(c), u] for r, (c, u) in v.items()}
+                                               for k, v in structures.items()})
+    ana = PathDeps(axis, angle, vec, structures)
     exits = ana.exit_states(fn)
     paths = []
     for stmt, st in exits:
